@@ -779,3 +779,26 @@ Proof.
   intros p Hp. rewrite forallb_forall in H4. specialize (H4 p Hp). apply Nat.ltb_lt in H4.
   rewrite forallb_forall in H3. simpl. apply H3. apply nth_In. assumption.
 Qed.
+
+(* the checker that also compares the skip decisions accepts only what the fast checker accepts *)
+Lemma grun_skip_nowf : forall Rp Ra strict GG cap atr (s s' : gstate Rp Ra) i,
+  grun_skip Rp Ra strict GG cap s atr i = inl s' -> grun_nowf Rp Ra strict GG cap s (map fst atr) = Some s'.
+Proof.
+  induction atr as [| [l obs] r IH]; simpl; intros s s' i H.
+  - inversion H. reflexivity.
+  - destruct (gstep_nowf Rp Ra strict GG cap s l) as [s1 |]; try discriminate.
+    destruct (skip_of Rp Ra s1 l) as [sk |].
+    + destruct (Bool.eqb sk obs); try discriminate. eapply IH; eauto.
+    + eapply IH; eauto.
+Qed.
+
+Theorem valid_trace_skips_sound : forall Rp Ra top tabs assign cap (atr : list (glabel Rp Ra * bool)),
+  valid_trace_skips Rp Ra top tabs assign cap atr = true ->
+  valid_trace Rp Ra (gdag_of_shared top tabs assign) cap (map fst atr) = true.
+Proof.
+  intros Rp Ra top tabs assign cap atr H. apply valid_trace_fast_sound.
+  unfold valid_trace_skips in H. unfold valid_trace_fast.
+  apply andb_true_iff in H. destruct H as [H H5]. rewrite H. simpl.
+  destruct (grun_skip Rp Ra false (gdag_of_shared top tabs assign) cap (ginit (gdag_of_shared top tabs assign) cap) atr 0) as [s |] eqn:E; try discriminate.
+  rewrite (grun_skip_nowf _ _ _ _ _ _ _ _ _ E). exact H5.
+Qed.
